@@ -851,7 +851,7 @@ Proof.
     rewrite Hr. unfold core_reads. destruct l; try reflexivity.
     destruct (_ && _); [|reflexivity]. rewrite ret_data_app, Hrd. reflexivity. }
   (* uses of Hsimple: remaining goals are  vsteps / emitted / wire_only / readout / arrivals  in this order *)
-  destruct l as [x|x sid' data|x sid' k|x|x sid'|x|x c|c|d].
+  destruct l as [x|x sid' data|x sid' k|x|x sid'|x|x c|c|d|c|x c].
   - (* OpenStream *)
     rewrite step_core_open in H.
     destruct (open_stream_effect _ _ _ _ H (Hfresh x eq_refl)) as (acts & Hv & He & Hr & Ha & Hf).
@@ -1011,5 +1011,31 @@ Proof.
       |apply wire_app; assumption
       |now rewrite app_assoc
       |intros ? ? ? Hd; now injection Hd|do 3 eexists; reflexivity|reflexivity|reflexivity].
+  - (* Break *)
+    rewrite step_core_break in H.
+    destruct (nthN (N.to_nat c) (sy_conns y)) as [cn|] eqn:En.
+    2:{ injection H as <- <-.
+        eapply (Hsimple [] [] _); [constructor|reflexivity|constructor|reflexivity|intros ? ? ? Hd; now injection Hd|do 3 eexists; reflexivity|reflexivity|reflexivity]. }
+    injection H as <- <-.
+    assert (Hdrop : vstep y (ADrop (filter keep (conn_q cn o)))
+                          (set_conns y (setN (N.to_nat c) (mkC [] [] (c_clA cn) (c_clB cn) true) (sy_conns y)))).
+    { apply VDrop; [|apply sview_set_conns|apply rview_set_conns].
+      unfold MuxView.inflight. fold o. cbn [sy_conns set_conns].
+      apply (flat_map_setN_nil (fun c0 : conn => filter keep (conn_q c0 o)) _ _ _ _ En). destruct o; reflexivity. }
+    eapply (Hsimple [ADrop (filter keep (conn_q cn o))] [] _);
+      [apply vsteps_one; exact Hdrop|reflexivity|constructor|reflexivity
+      |intros ? ? ? Hd; now injection Hd|do 3 eexists; reflexivity|reflexivity|reflexivity].
+  - (* Notice *)
+    rewrite step_core_notice in H.
+    destruct (nthN (N.to_nat c) (sy_conns y)) as [cn|] eqn:En.
+    2:{ injection H as <- <-.
+        eapply (Hsimple [] [] _); [constructor|reflexivity|constructor|reflexivity|intros ? ? ? Hd; now injection Hd|do 3 eexists; reflexivity|reflexivity|reflexivity]. }
+    destruct (_ && _).
+    2:{ injection H as <- <-.
+        eapply (Hsimple [] [] _); [constructor|reflexivity|constructor|reflexivity|intros ? ? ? Hd; now injection Hd|do 3 eexists; reflexivity|reflexivity|reflexivity]. }
+    pose proof (deplex_error_wire y x c) as Hw.
+    destruct (deplex_error y x c) as [y1 e1] eqn:Ed. cbn in Hw. injection H as <- <-.
+    destruct (deplex_error_quiet _ _ _ _ _ Ed) as [Hq Hf].
+    eapply (Hsimple [AQuiet] e1 _); [apply vsteps_quiet; exact Hq|now rewrite Hf|exact Hw|reflexivity|intros ? ? ? Hd; now injection Hd|do 3 eexists; reflexivity|reflexivity|reflexivity].
 Qed.
 End Effect.
